@@ -324,6 +324,108 @@ def comp_ok(f, comp, g):
     return True, ""
 
 
+def length_of(e, env, depth=0):
+    """(base, offset): the leading length of an array expression as <length of base> + offset, or None.  Slices with literal bounds shift the offset,
+    element-wise arithmetic of equal lengths keeps it, cumulative / element-wise NumPy functions keep it, np.r_/vstack add their parts."""
+    if depth > 8:
+        return None
+    if isinstance(e, ast.Name):
+        if e.id in env:
+            return env[e.id]
+        return (e.id, 0)
+    if isinstance(e, ast.Attribute) and isinstance(e.value, ast.Name) and e.value.id == "self":
+        return ("self." + e.attr, 0)
+    if isinstance(e, ast.Subscript):
+        inner = length_of(e.value, env, depth + 1)
+        sl = e.slice.elts[0] if isinstance(e.slice, ast.Tuple) else e.slice
+        if inner is None:
+            return None
+        if isinstance(sl, ast.Slice) and sl.step is None:
+            lo = ast.literal_eval(sl.lower) if sl.lower is not None and isinstance(sl.lower, (ast.Constant, ast.UnaryOp)) else (0 if sl.lower is None else None)
+            hi = ast.literal_eval(sl.upper) if sl.upper is not None and isinstance(sl.upper, (ast.Constant, ast.UnaryOp)) else (0 if sl.upper is None else None)
+            if lo is None or hi is None or not isinstance(lo, int) or not isinstance(hi, int) or lo < 0 or hi > 0:
+                return None
+            return (inner[0], inner[1] - lo + hi)
+        return None
+    if isinstance(e, ast.BinOp):
+        l, r = length_of(e.left, env, depth + 1), length_of(e.right, env, depth + 1)
+        scal = lambda x: isinstance(x, (ast.Constant,)) or (isinstance(x, ast.Name) and x.id in ("dt", "Dt")) or (isinstance(x, ast.Attribute) and x.attr in ("Dt", "dt"))
+        if scal(e.left):
+            return r
+        if scal(e.right):
+            return l
+        if l is not None and r is not None and l == r:
+            return l
+        return None
+    if isinstance(e, ast.Call):
+        nm = ast.unparse(e.func).split(".")[-1]
+        if nm in ("cumsum", "cumprod", "asarray", "array", "copy", "cos", "sin", "abs", "unwrap", "atleast_2d", "asfarray") and e.args:
+            return length_of(e.args[0], env, depth + 1)
+        if nm in ("QuaternionArray",) and (e.args or e.keywords):        # one quaternion per row of whatever it is built from
+            return length_of(e.args[0] if e.args else e.keywords[0].value, env, depth + 1)
+        if nm in ("to_array", "to_DCM", "to_angles") and isinstance(e.func, ast.Attribute) and not e.args:
+            return length_of(e.func.value, env, depth + 1)
+        if nm in ("vstack", "concatenate", "row_stack") and e.args and isinstance(e.args[0], (ast.Tuple, ast.List)):
+            parts = [length_of(p, env, depth + 1) for p in e.args[0].elts]
+            if all(p is not None for p in parts) and len({p[0] for p in parts if p[0] != "#"}) <= 1:
+                base = next((p[0] for p in parts if p[0] != "#"), "#")
+                return (base, sum(p[1] for p in parts))
+            return None
+        if nm in ("zeros", "ones", "empty") and e.args:
+            shp = e.args[0]
+            first = shp.elts[0] if isinstance(shp, (ast.Tuple, ast.List)) else shp
+            if isinstance(first, ast.Constant) and isinstance(first.value, int):
+                return ("#", first.value)
+        return None
+    return None
+
+
+def integration_length(chk, prog):
+    """COUNT.len: AngularRate's 'integration' mode returns what integrate_angular_positions returns; its leading length must be that of the gyroscope array
+    it is given (one attitude per sample), decided by a small length analysis (slices shift, element-wise and cumulative operations keep the length)"""
+    f = prog.func(F + "angular.py::AngularRate.integrate_angular_positions")
+    chk.touch(f)
+    env = {}
+    rets = []
+    for s_ in f.node.body:
+        if isinstance(s_, ast.Assign) and isinstance(s_.targets[0], ast.Name):
+            v = length_of(s_.value, env)
+            if v is not None:
+                env[s_.targets[0].id] = v
+            else:
+                env.pop(s_.targets[0].id, None)
+        for r in ast.walk(s_):
+            if isinstance(r, ast.Return) and r.value is not None:
+                rets.append((r, dict(env)))
+    n = 0
+    for r, e_ in rets:
+        v = r.value
+        # representation conversions keep one row per row: look through Quaternion-array constructors / method calls on the integrated angles
+        inner = v
+        while isinstance(inner, ast.Call):
+            if isinstance(inner.func, ast.Attribute) and not inner.args:
+                inner = inner.func.value
+            elif inner.args:
+                inner = inner.args[0]
+            elif inner.keywords:
+                inner = inner.keywords[0].value
+            else:
+                break
+        ln = length_of(inner, e_)
+        site = "%s::%s" % (f.ref, stmt_text(r)[:60])
+        if ln is None:
+            continue
+        n += 1
+        if ln == ("gyr", 0):
+            chk.record("COUNT.len", site, "returned array has one row per gyroscope sample")
+        else:
+            why = "the returned array has len(%s)%+d rows for len(gyr) input rows: the 'integration' mode no longer returns one attitude per sample" % (ln[0], ln[1])
+            chk.record("COUNT.len", site, "one row per gyroscope sample", verdict="VIOLATION", detail=why)
+            chk.finding("COUNT.len", f.module.rel, f.qname, "length of the integrated angular positions", why, line=r.lineno)
+    if n == 0:
+        chk.error("COUNT.len: no return of integrate_angular_positions has a decidable length")
+
+
 def api_rule(chk, prog):
     n = 0
     for f in prog.all_funcs():
@@ -390,6 +492,7 @@ def run(chk, prog, tier):
         chk.error("UNIT-RET visited %d return paths, 50 confirmed by hand" % n)
     count_rule(chk, prog)
     api_rule(chk, prog)
+    integration_length(chk, prog)
     chk.require_count("COUNT.loop", 14)
     chk.require_count("COUNT.comp", 6)
     canaries(chk, prog)
